@@ -7,6 +7,7 @@ Require Import ZArith QArith List.
 Require Import BFL.Ops BFL.ListOps BFL.Density BFL.C16_Model BFL.C16_ProofsSM.
 From mathcomp Require Import all_ssreflect all_algebra.
 Require Import BFL.MxOps BFL.LinAlg BFL.C16_Proofs.
+Require Import BFL.ListOpsCorrect BFL.C02_Transport BFL.UT_Transport BFL.C16_Extract BFL.C16_Transport.
 Import GRing.Theory Num.Theory.
 Local Open Scope ring_scope.
 
@@ -236,6 +237,17 @@ Theorem C16_selector_rejects_out_of_range n (idxs : list nat) rr rc (R : M O rr 
               nth_error idxs p = Some v /\ (n <= v)%coq_nat /\ Forall (fun c => (c < n)%coq_nat) (firstn p idxs).
 Proof. exact: linear_model_rejects. Qed.
 
+(* the grid initialiser on a particle set with any number r of state rows (the function that is
+   extracted and run): it refuses exactly a wrong particle count or a state that is not
+   (x, vx, y, vy), and on 4 rows it is the grid_initialize of the C16_grid_* theorems *)
+Theorem C16_grid_rows_refusal (xinf xsup yinf ysup : T (sc O)) nx ny r np (st : M O r np) (w : M O np 1) :
+  grid_initialize_rows xinf xsup yinf ysup nx ny st w = None <-> (np <> nx * ny \/ r <> 4).
+Proof. exact: grid_rows_refusal. Qed.
+
+Theorem C16_grid_rows_four (xinf xsup yinf ysup : T (sc O)) nx ny np (st : M O 4 np) (w : M O np 1) :
+  grid_initialize_rows xinf xsup yinf ysup nx ny st w = grid_initialize xinf xsup yinf ysup nx ny st w.
+Proof. exact: grid_rows_four. Qed.
+
 Section Serving.
 Variable d : nat.
 Variable motion : M O d 1 -> list (T (sc O)) -> M O d 1 * list (T (sc O)).
@@ -331,8 +343,149 @@ Proof. exact: sensor_run_draws. Qed.
 End Serving.
 End C16_any_instance.
 
-(* ---- non-vacuity ---- *)
+(* ---- executed model = theorem model ----
+   Every entry point of C16_Extract.v (what the OCaml driver calls, with IEEE doubles as scalars),
+   run on lists over the scalars of ANY realFieldType and with ANY list-level square-root oracle
+   sqL, REPRESENTS (repr: m rows of n entries, entry-wise equal) the value of the model function
+   the theorems above are about at the MathComp instance.  Premises: the inputs are represented;
+   the two square-root oracles correspond on the matrix actually factored (corrQ / corrR; holds
+   e.g. for the identity oracles, C16_executed_premises_satisfiable, and excludes no list oracle,
+   UT_Transport.oracle_counterpart_exists); T, q > 0 for the density (Q is then PROVED invertible,
+   so the Gauss-Jordan inverse / determinant of the list instance are invmx / \det). *)
 Local Open Scope ring_scope.
+Section C16_executed.
+Variable F : realFieldType.
+Variable tr : Transc F.
+Variable sq : forall n, 'M[F]_n -> 'M[F]_n.
+Variable eg : forall n, 'M[F]_n -> 'M[F]_(n,1).
+Variable sqL : nat -> lmxF F -> lmxF F.
+Let S := FOps tr.
+Let egL : nat -> lmxF F -> lmxF F := fun _ A => A.
+Let OM := MxMat tr sq eg.
+Notation repr m n l A := (@C02_Transport.repr F m n l A) (only parsing).
+Notation corrQ := (@sq_corr_Q F tr sq eg sqL egL).
+Notation corrR := (@sq_corr_R F tr sq eg sqL egL).
+Notation rsim n := (@rel_sim F tr sq eg sqL egL n).
+
+Theorem C16_executed_F_is_theorem_model d (Ts : F) :
+  repr (dim_n d) (dim_n d) (c16_wna_F S sqL d Ts) (wna_F (O:=OM) d Ts : 'M[F]_(dim_n d)).
+Proof. exact: entry_wna_F. Qed.
+
+Theorem C16_executed_Q_is_theorem_model d (Ts q : F) :
+  repr (dim_n d) (dim_n d) (c16_wna_Q S sqL d Ts q) (wna_Q (O:=OM) d Ts q : 'M[F]_(dim_n d)).
+Proof. exact: entry_wna_Q. Qed.
+
+Theorem C16_executed_sqrtQ_is_theorem_model d (Ts q : F) : corrQ d Ts q ->
+  repr (dim_n d) (dim_n d) (c16_wna_sqrtQ S sqL d Ts q) (wna_sqrtQ (O:=OM) d Ts q : 'M[F]_(dim_n d)).
+Proof. exact: entry_wna_sqrtQ. Qed.
+
+Theorem C16_executed_noise_sample_is_theorem_model d (Ts q : F) num zs : corrQ d Ts q ->
+  repr (dim_n d) num (c16_wna_noise S sqL d Ts q num zs).1
+                     ((wna_noise_sample (O:=OM) d Ts q num zs).1 : 'M[F]_(dim_n d,num))
+  /\ (c16_wna_noise S sqL d Ts q num zs).2 = (wna_noise_sample (O:=OM) d Ts q num zs).2.
+Proof. exact: entry_wna_noise. Qed.
+
+Theorem C16_executed_motion_is_theorem_model d (Ts q : F) c lX (X : 'M[F]_(dim_n d,c)) zs : corrQ d Ts q ->
+  repr (dim_n d) c lX X ->
+  repr (dim_n d) c (c16_wna_motion S sqL d Ts q c lX zs).1 ((wna_motion (O:=OM) d Ts q X zs).1 : 'M[F]_(dim_n d,c))
+  /\ (c16_wna_motion S sqL d Ts q c lX zs).2 = (wna_motion (O:=OM) d Ts q X zs).2.
+Proof. exact: entry_wna_motion. Qed.
+
+Theorem C16_executed_transition_density_is_theorem_model d (Ts q : F) c lp (prev : 'M[F]_(dim_n d,c)) lc (cur : 'M[F]_(dim_n d,c)) :
+  0 < Ts -> 0 < q -> repr (dim_n d) c lp prev -> repr (dim_n d) c lc cur ->
+  c16_wna_tp S sqL d Ts q c lp lc = wna_transition_probability (O:=OM) d Ts q prev cur.
+Proof. exact: entry_wna_tp. Qed.
+
+(* the spec side of the violation search *)
+Theorem C16_executed_spec_density_is_theorem_model d (Ts q : F) c lp (prev : 'M[F]_(dim_n d,c)) lc (cur : 'M[F]_(dim_n d,c)) :
+  0 < Ts -> 0 < q -> repr (dim_n d) c lp prev -> repr (dim_n d) c lc cur ->
+  c16_spec_tp S sqL d Ts q c lp lc =
+  List.map (fun j => density (O:=OM) (mcol (O:=OM) j cur)
+                             ((wna_F (O:=OM) d Ts : 'M[F]_(dim_n d)) *m (mcol (O:=OM) j prev : 'cV[F]_(dim_n d)))
+                             (wna_Q (O:=OM) d Ts q)) (List.seq 0 c).
+Proof. exact: entry_spec_tp. Qed.
+
+Theorem C16_executed_factor_contract_is_theorem_model n lL (L : 'M[F]_n) :
+  repr n n lL L -> repr n n (c16_LLt S sqL n lL) (L *m L^T).
+Proof. exact: entry_LLt. Qed.
+
+Theorem C16_executed_lti_state_ctor_is_theorem_model fr fc qr qc lF (Fm : 'M[F]_(fr,fc)) lQ (Q : 'M[F]_(qr,qc)) :
+  repr fr fc lF Fm -> repr qr qc lQ Q ->
+  srel (@rel_pair F fr fc qr qc) (c16_lti_state S sqL fr fc qr qc lF lQ) (lti_state_ctor (O:=OM) Fm Q).
+Proof. exact: entry_lti_state. Qed.
+
+Theorem C16_executed_lti_meas_ctor_is_theorem_model hr hc rr rc lH (H : 'M[F]_(hr,hc)) lR (R : 'M[F]_(rr,rc)) :
+  repr hr hc lH H -> repr rr rc lR R ->
+  srel (@rel_pair F hr hc rr rc) (c16_lti_meas S sqL hr hc rr rc lH lR) (lti_meas_ctor (O:=OM) H R).
+Proof. exact: entry_lti_meas. Qed.
+
+(* LinearModel: same outcome (which check fired, position and value of a rejected index), and on
+   success H (the 0/1 selector), R and sqrt_R are represented *)
+Theorem C16_executed_selector_is_theorem_model n idxs rr rc lR (R : 'M[F]_(rr,rc)) :
+  repr rr rc lR R -> corrR lR R ->
+  srel (@rel_lm F (length idxs) n rr rc) (c16_linear_model S sqL n idxs rr rc lR) (linear_model_ctor (O:=OM) n idxs R).
+Proof. exact: entry_linear_model. Qed.
+
+Theorem C16_executed_sensor_noise_is_theorem_model d lL (L : 'M[F]_d) num zs : repr d d lL L ->
+  repr d num (c16_noise S sqL d lL num zs).1 ((noise_sample (O:=OM) L num zs).1 : 'M[F]_(d,num))
+  /\ (c16_noise S sqL d lL num zs).2 = (noise_sample (O:=OM) L num zs).2.
+Proof. exact: entry_noise. Qed.
+
+(* the trajectory recursion: same rejection of length 0; otherwise every stored column, the
+   length, the cursor and the (empty) data are those of the theorem model *)
+Theorem C16_executed_trajectory_is_theorem_model d (Ts q : F) lx (x0 : 'cV[F]_(dim_n d)) len zs :
+  corrQ d Ts q -> repr (dim_n d) 1 lx x0 ->
+  srel (rsim (dim_n d)) (c16_sim_ctor S sqL d Ts q lx len zs)
+       (sim_ctor (O:=OM) (fun (x : 'cV[F]_(dim_n d)) z => wna_motion (O:=OM) d Ts q (c:=1) x z) x0 len zs).
+Proof. exact: entry_sim_ctor. Qed.
+
+Theorem C16_executed_trajectory_columns_is_theorem_model n sl (sm : sim_state (O:=OM) n) : rsim n sl sm ->
+  List.Forall2 (fun l (x : 'cV[F]_n) => repr n 1 l x) (c16_sim_target S sqL n sl) (sim_target sm).
+Proof. exact: entry_sim_target. Qed.
+
+(* serving: after ANY call sequence the return values are equal and getData() is represented *)
+Theorem C16_executed_serving_is_theorem_model n sl (sm : sim_state (O:=OM) n) ops : rsim n sl sm ->
+  List.Forall2 (@rel_out F n) (c16_sim_run S sqL n sl ops) (sim_run (O:=OM) sm ops).1.
+Proof. exact: entry_sim_run. Qed.
+
+Theorem C16_executed_sensor_output_is_theorem_model n m lH (H : 'M[F]_(m,n)) lLR (LR : 'M[F]_m) sl (sm : sim_state (O:=OM) n) zs ops :
+  repr m n lH H -> repr m m lLR LR -> rsim n sl sm ->
+  List.Forall2 (fun (o : bool * option (lmxF F)) (p : bool * option 'cV[F]_m) =>
+                  o.1 = p.1 /\ orel (fun l (y : 'cV[F]_m) => repr m 1 l y) o.2 p.2)
+               (c16_sensor_run S sqL n m lH lLR sl zs ops)
+               (sensor_run (O:=OM) H LR (mkSens (O:=OM) (m:=m) sm zs None) ops).1.
+Proof. exact: entry_sensor_run. Qed.
+
+Theorem C16_executed_sensor_descriptions_is_theorem_model m n lH (H : 'M[F]_(m,n)) lin circ nr : repr m n lH H ->
+  c16_sensor_descs S sqL m n lH lin circ nr = sensor_descriptions (O:=OM) H (mkDesc lin circ 0) nr.
+Proof. exact: entry_sensor_descs. Qed.
+
+(* the trajectory over a user-defined additive linear model x -> F x + w (C16_trajectory is about any motion) *)
+Theorem C16_executed_user_model_trajectory_is_theorem_model n lF (Fm : 'M[F]_n) lx (x0 : 'cV[F]_n) len zs :
+  repr n n lF Fm -> repr n 1 lx x0 ->
+  srel (rsim n) (c16_lti_sim_ctor S sqL n lF lx len zs)
+       (sim_ctor (O:=OM) (fun (x : 'cV[F]_n) z => additive_motion (O:=OM) (c:=1) Fm (1%:M : 'M[F]_n) x z) x0 len zs).
+Proof. exact: entry_lti_sim_ctor. Qed.
+
+Theorem C16_executed_grid_is_theorem_model (xinf xsup yinf ysup : F) nx ny r np lst (st : 'M[F]_(r,np)) lw (w : 'cV[F]_np) :
+  repr r np lst st ->
+  orel (@rel_grid F r np) (c16_grid S sqL xinf xsup yinf ysup nx ny r np lst lw)
+       (grid_initialize_rows (O:=OM) xinf xsup yinf ysup nx ny st w).
+Proof. exact: entry_grid. Qed.
+End C16_executed.
+
+(* the premises are satisfiable together: identity square-root oracles correspond on every Q and
+   every represented R; every matrix has a representation *)
+Example C16_executed_premises_satisfiable (F : realFieldType) (tr : Transc F) eg d (Ts q : F) rr rc (R : 'M[F]_(rr,rc)) :
+  @sq_corr_Q F tr (@id_sq F) eg (@id_sqL F) (fun _ A => A) d Ts q
+  /\ @C02_Transport.repr F rr rc (of_mx tr R) R
+  /\ @sq_corr_R F tr (@id_sq F) eg (@id_sqL F) (fun _ A => A) rr rc (of_mx tr R) R.
+Proof.
+split; first exact: sq_corr_Q_id.
+by split; [exact: of_mx_repr | apply: sq_corr_R_id; exact: of_mx_repr].
+Qed.
+
+(* ---- non-vacuity ---- *)
 
 (* the premises of the SPD / covariance theorems are satisfiable in every field ... *)
 Example C16_premises_satisfiable (F : realFieldType) n :
@@ -425,6 +578,8 @@ Print Assumptions C16_lti_state_ctor_validation.
 Print Assumptions C16_lti_meas_ctor_validation.
 Print Assumptions C16_selector_ctor_validation.
 Print Assumptions C16_selector_rejects_out_of_range.
+Print Assumptions C16_grid_rows_refusal.
+Print Assumptions C16_grid_rows_four.
 Print Assumptions C16_trajectory.
 Print Assumptions C16_zero_length_has_no_state.
 Print Assumptions C16_trajectory_recurrence.
@@ -435,3 +590,22 @@ Print Assumptions C16_call_output.
 Print Assumptions C16_sensor_freeze.
 Print Assumptions C16_sensor_serving.
 Print Assumptions C16_sensor_draws.
+Print Assumptions C16_executed_F_is_theorem_model.
+Print Assumptions C16_executed_Q_is_theorem_model.
+Print Assumptions C16_executed_sqrtQ_is_theorem_model.
+Print Assumptions C16_executed_noise_sample_is_theorem_model.
+Print Assumptions C16_executed_motion_is_theorem_model.
+Print Assumptions C16_executed_transition_density_is_theorem_model.
+Print Assumptions C16_executed_spec_density_is_theorem_model.
+Print Assumptions C16_executed_factor_contract_is_theorem_model.
+Print Assumptions C16_executed_lti_state_ctor_is_theorem_model.
+Print Assumptions C16_executed_lti_meas_ctor_is_theorem_model.
+Print Assumptions C16_executed_selector_is_theorem_model.
+Print Assumptions C16_executed_sensor_noise_is_theorem_model.
+Print Assumptions C16_executed_trajectory_is_theorem_model.
+Print Assumptions C16_executed_trajectory_columns_is_theorem_model.
+Print Assumptions C16_executed_serving_is_theorem_model.
+Print Assumptions C16_executed_sensor_output_is_theorem_model.
+Print Assumptions C16_executed_sensor_descriptions_is_theorem_model.
+Print Assumptions C16_executed_user_model_trajectory_is_theorem_model.
+Print Assumptions C16_executed_grid_is_theorem_model.
